@@ -2,9 +2,9 @@
 from __future__ import annotations
 from engine.registry import Registry
 from engine import sortmodel, polymodel
-from contracts import option, sorting, align, compare, order_lemmas, leading, dispatch, construct
+from contracts import option, sorting, align, compare, order_lemmas, leading, dispatch, construct, dispatchfn
 
-_CONTRACT_MODULES = [option, sorting, align, compare, leading, dispatch, construct]
+_CONTRACT_MODULES = [option, sorting, align, compare, leading, dispatch, construct, dispatchfn]
 
 ALL_CONTRACTS = {}
 for _m in _CONTRACT_MODULES:
@@ -85,9 +85,19 @@ PROPS = {
         explanation="All clauses of C14 are postconditions/invariants of get_options, set_options, global_options and a "
                     "whole-repository frame scan; every obligation is discharged by z3 with dicts as arrays.",
     ),
-    "C01": dict(level="other", contracts=[], explanation="Bounded run-time contracts only so far (conc/checks_c01.py): exact "
-                "sparse-polynomial oracle for + - * ** incl. mixed operand kinds, broadcasting, composition laws.",
-                trusted_base=COMMON_TRUSTED),
+    "C01": dict(level="other",
+                contracts=["numpoly.simple_dispatch", "numpoly.add", "numpoly.subtract", "numpoly.negative", "numpoly.positive"],
+                explanation="simple_dispatch is proved for an arbitrary column function F (arity 1-2): the filled polynomial has "
+                "the rows/names of the aligned operands, EVERY coefficient column is F of the operands' columns of the same term "
+                "(loop invariant; definedness), shape/dtype are numpy's, result is the cleaning of it (fresh, well-formed). "
+                "add/subtract/negative/positive apply the numpy namesake to the operands in order with where forwarded; their value "
+                "clause (ring operation of the abstract values, broadcast) follows by bridge B5. multiply/power/square and mixed "
+                "operand kinds: bounded run-time checks against the exact sparse-polynomial oracle (conc/checks_c01.py).",
+                trusted_base=COMMON_TRUSTED + ["contracts of align_polynomials (C04), clean_attributes/from_attributes (C03), "
+                                               "assumed ndpoly.__new__ / accessor model"],
+                assumptions=["B5 (column-wise application of a linear zero-preserving function denotes the function of the values)",
+                             "out=None; kwargs other than where=True pass through to numpy unverified"],
+                not_decided=["multiply (compiled kernel + fallback loop), power, square: bounded only"]),
     "C15": dict(level="other", contracts=["numpoly.postprocess_attributes", "numpoly.polynomial_from_attributes", "numpoly.clean_attributes"],
                 explanation="Every verification condition of the construct/align/compare/leading contracts is generated with the "
                 "option dictionary symbolic (get_options() is a contract returning an arbitrary map satisfying the module invariant); "
@@ -129,9 +139,14 @@ PROPS = {
                 "settings of the boolean options.", trusted_base=COMMON_TRUSTED),
     "C09": dict(level="other", contracts=[], explanation="Bounded run-time contracts only so far (conc/checks_c09.py): numpy on an "
                 "object array of model polynomials as oracle.", trusted_base=COMMON_TRUSTED),
-    "C10": dict(level="other", contracts=[], explanation="Bounded run-time contracts only so far (conc/checks_c10.py).",
+    "C10": dict(level="other", contracts=["numpoly.simple_dispatch", "numpoly.sum", "numpoly.cumsum", "numpoly.mean"],
+                explanation="sum/cumsum/mean are proved to apply numpy.sum/cumsum/mean to every coefficient column of the operand with "
+                "axis/dtype/keepdims forwarded unchanged (contract of simple_dispatch: every column written, rows/names kept); that a "
+                "linear column-wise reduction denotes the finite sum of the elements is bridge B5. prod, diff, ediff1d, inner, outer, "
+                "matmul, det: bounded run-time checks (conc/checks_c10.py).",
                 trusted_base=COMMON_TRUSTED),
-    "C11": dict(level="other", contracts=["numpoly.isconstant", "numpoly.tonumpy"],
+    "C11": dict(level="other", contracts=["numpoly.isconstant", "numpoly.tonumpy", "numpoly.absolute", "numpoly.ceil", "numpoly.floor",
+                                          "numpoly.rint", "numpoly.around"],
                 explanation="isconstant/tonumpy (on which the numeric division family and every 'constant' clause rest) are proved; "
                 "the catalogue of mirrored functions on constants is a bounded run-time check against numpy on plain arrays "
                 "(conc/checks_c11.py).", trusted_base=COMMON_TRUSTED),
